@@ -78,3 +78,61 @@ def apply_conformance(ctx):
     ctx.validated -= res["events"]          # drift comparison, not a property judgement: not counted as validated observations
     ctx.extra["apply_drift"] = len(res["drift"])
     return res
+
+
+def run_chunks(ctx, prop, gen, chunks, rule, module="Val_Spell"):
+    """big sweeps: every chunk (a dict of generator parameters for ONE language and ONE range) is generated, executed and validated on
+    its own (TLC -> harness -> TLC), 12 chunks in parallel; only failures and samples are kept."""
+    total = [0]
+    distinct = [0]
+
+    def job(k):
+        def run1():
+            prm = chunks[k]
+            tag = "c%03d" % k
+            pj = ctx.path("params_%s.json" % tag)
+            json.dump(prm, open(pj, "w"), ensure_ascii=False)
+            req, n = vlib.generate(ctx, gen, None, "req_%s.ndjson" % tag, env={"PARAMS": pj}, heap="3g")
+            obs = ctx.path("obs_%s.ndjson" % tag)
+            h = vlib.harness(ctx, "text", req, obs)
+            if h["rc"] != 0:
+                ctx.failures.append(dict(verdict="harness-child-died", cls="harness-child-died", sig=dict(verdict="harness-child-died", rc=h["rc"])))
+                return
+            out = obs + ".res.json"
+            vlib.tlc(module, os.path.join(vlib.SPEC, "Val.cfg"), ctx.path("meta_" + tag), env={"TRACE": obs, "OUT": out, "PROP": prop, "DRIFT": "0"},
+                     heap="2500m", timeout=3600)
+            res = json.load(open(out, encoding="utf-8"))
+            total[0] += res["events"]
+            want = {f["i"] for f in res["pbad"]}
+            sample_at = 1 if k % 9 == 0 else 0
+            cnt = 0
+            for r in vlib.read_ndjson(obs):
+                cnt += 1
+                q = r["q"]
+                if r["i"] in want:
+                    f = [x for x in res["pbad"] if x["i"] == r["i"]][0]
+                    m = r["multi"]
+                    sig = dict(verdict=f["verdict"], lang=q["lang"], text=q["texts"][0], thr="0", rew=(m[0].get("rew") or {}).get("v"),
+                               occs=json.dumps([(o["s"], o["e"], o["t"], o["o"]) for o in m[0].get("occs", [])], ensure_ascii=False))
+                    ctx.failures.append(dict(verdict=f["verdict"], cls="%s/%s" % (f["verdict"], q["lang"]), sig=sig, request=q))
+                elif sample_at and cnt == 777 and len(ctx.samples) < 8:
+                    m = r["multi"]
+                    ctx.samples.append(dict(lang=q["lang"], variant=q.get("v"), groups=q.get("gs"), phrase=q["texts"][0],
+                                            validated=m[0].get("t2d"), in_sentence=q["texts"][-1] if len(q["texts"]) > 1 else None,
+                                            rewritten=(m[-1].get("rew") or {}).get("v")))
+            distinct[0] += cnt
+            for pth in (req, obs, out, pj):
+                try:
+                    os.remove(pth)
+                except OSError:
+                    pass
+        return run1
+    vlib.run_pool([job(k) for k in range(len(chunks))], workers=12)
+    ctx.evaluations += distinct[0]
+    ctx.validated += total[0]
+    ctx.nontrivial += distinct[0]
+    ctx.extra["chunks"] = len(chunks)
+    ctx.rule = rule
+    tool = [f for f in ctx.failures if f["verdict"].startswith("tool-error")]
+    if tool:
+        raise vlib.ToolError("generator/validator disagree on the grammar: %s" % json.dumps(tool[0]["sig"], ensure_ascii=False)[:400])
